@@ -37,8 +37,20 @@ pub fn run_decode(api: Api, enc: &Encoded, payload: &[u8], s: &Sched, st: &mut S
     // the tail rotates with the schedule so that every coding meets every kind of following bytes
     stream.extend_from_slice(TAILS[(s.cuts.len() + s.outs.len() + s.stops.len() + enc.bytes.len()) % TAILS.len()]);
     let clen = enc.bytes.len();
-    let method = Method::GET;
-    let mut r = Reader::new(api, &method, false, HEAD)?;
+    // the body state is reached on different routes (rotating with the case): plain; after a late 100 in the head's window; after
+    // the 100 was seen while awaiting; as the body of a response that refuses Expect: 100-continue; for an HTTP/1.0 request
+    let variant = (s.cuts.len() + 2 * s.outs.len() + 3 * s.stops.len() + enc.bytes.len()) % 10;
+    let (route, req_v10) = match variant {
+        6 => (1, false),
+        7 => (5, false),
+        8 => (0, true),
+        9 => (3, false),
+        _ => (0, false),
+    };
+    if api == Api::Flow && variant >= 6 {
+        st.class("body_state_reached_on_another_route");
+    }
+    let mut r = Reader::new_route(api, route, req_v10, false, HEAD)?;
     let mut consumed = 0usize;
     let mut produced = 0usize;
     let mut cut_i = 0usize;
